@@ -24,12 +24,131 @@ Proof.
   assert (Hn : beq n k = false) by (apply beq_neq; exact E). rewrite Hn. exact IH.
 Qed.
 
+(* the walk goes on past an unlistable directory: wherever the stray
+   directories fall, the listing is that of the stored objects *)
+Lemma walk_weave prefix : forall pos (fs : bucket bytes) (bs : list bytes),
+  walk (weave pos (map (fun nv => UFile (fst nv) (snd nv)) fs) (map UBadDir bs)) prefix
+  = filter (fun nv => has_prefix (fst nv) prefix) fs.
+Proof.
+  assert (Hfs : forall fs : bucket bytes,
+             walk (map (fun nv => UFile (fst nv) (snd nv)) fs) prefix = filter (fun nv => has_prefix (fst nv) prefix) fs).
+  { induction fs as [|[n d] fs IH]; [reflexivity|]. cbn [map walk filter fst snd]. rewrite IH. reflexivity. }
+  assert (Hbs : forall bs, walk (map UBadDir bs) prefix = []).
+  { induction bs as [|b bs IH]; [reflexivity | exact IH]. }
+  assert (Happ : forall a b, walk (a ++ b) prefix = walk a prefix ++ walk b prefix).
+  { induction a as [|[n d|n] a IH]; intro b; cbn [app walk]; [reflexivity| |apply IH].
+    destruct (has_prefix n prefix); [cbn [app]; f_equal|]; apply IH. }
+  induction pos as [|[|] pos IH]; intros fs bs; cbn [weave].
+  - rewrite Happ, Hfs, Hbs, app_nil_r. reflexivity.
+  - destruct bs as [|b bs]; cbn [map walk]; [apply (IH fs []) | apply IH].
+  - destruct fs as [|[n d] fs]; cbn [map walk filter fst snd]; [apply (IH [] bs)|].
+    rewrite (IH fs bs). reflexivity.
+Qed.
+
+Theorem listing_ignores_strays ord pos st date :
+  day_objects ord pos st date = map snd (filter (fun nv => has_prefix (fst nv) date) (ord (ws_upload st))).
+Proof. unfold day_objects, day_entries. rewrite walk_weave. reflexivity. Qed.
+
+(* the mutated walk that stops at the first unlistable directory loses objects: the two differ *)
+Fixpoint walk_aborting (es : list uentry) (prefix : bytes) : bucket bytes :=
+  match es with
+  | [] => []
+  | UFile n d :: r => if has_prefix n prefix then (n, d) :: walk_aborting r prefix else walk_aborting r prefix
+  | UBadDir _ :: _ => []
+  end.
+Lemma aborting_walk_differs :
+  walk [UBadDir [33%N]; UFile [50%N] [65%N]] [50%N] = [([50%N], [65%N])] /\
+  walk_aborting [UBadDir [33%N]; UFile [50%N] [65%N]] [50%N] = [].
+Proof. split; reflexivity. Qed.
+
+(* ------------------------------------------------------------------ *)
+(* handleCopy: every object of every day of the range arrives *)
+
+Lemma fold_put_preserve (l : bucket bytes) : forall (d : bucket bytes) n v,
+  b_get d n = Some v -> (forall v', In (n, v') l -> v' = v) ->
+  b_get (fold_left (fun d nv => b_put (fst nv) (snd nv) d) l d) n = Some v.
+Proof.
+  induction l as [|[n' v'] l IH]; intros d n v Hg Hl; cbn [fold_left]; [exact Hg|].
+  apply IH; [|intros v0 H0; apply Hl; right; exact H0]. cbn [fst snd]. rewrite b_get_put.
+  bcase n n'; [|exact Hg]. subst n'. f_equal. apply Hl. left. reflexivity.
+Qed.
+
+Lemma fold_put_in (l : bucket bytes) : forall (d : bucket bytes) n v,
+  In (n, v) l -> (forall v', In (n, v') l -> v' = v) ->
+  b_get (fold_left (fun d nv => b_put (fst nv) (snd nv) d) l d) n = Some v.
+Proof.
+  induction l as [|[n' v'] l IH]; intros d n v Hin Hl; [destruct Hin|]. cbn [fold_left fst snd].
+  destruct Hin as [E|Hin].
+  - injection E as -> ->. apply fold_put_preserve; [rewrite b_get_put, beq_refl; reflexivity|].
+    intros v0 H0. apply Hl. right. exact H0.
+  - apply IH; [exact Hin|]. intros v0 H0. apply Hl. right. exact H0.
+Qed.
+
+Section CopyFacts.
+  Variable ord : bucket bytes -> bucket bytes.
+  Hypothesis Hord : forall l, Permutation (ord l) l.
+  Variable src : bucket bytes.
+  Hypothesis Hnd : NoDup (map fst src).
+
+  Lemma src_unique n v v' : In (n, v) src -> In (n, v') src -> v' = v.
+  Proof.
+    clear Hord. induction src as [|[n0 v0] l IH]; intros Hin Hin'; [destruct Hin|].
+    cbn [map fst] in Hnd. inversion Hnd as [|? ? Hn Hnd']; subst.
+    destruct Hin as [E|Hin], Hin' as [E'|Hin'].
+    - congruence.
+    - injection E as -> ->. exfalso. apply Hn. apply in_map_iff. exists (n, v'). auto.
+    - injection E' as -> ->. exfalso. apply Hn. apply in_map_iff. exists (n, v). auto.
+    - apply IH; assumption.
+  Qed.
+
+  Lemma day_list_unique n v dd v' : In (n, v) src ->
+    In (n, v') (ord (filter (fun nv : bytes * bytes => has_prefix (fst nv) (fmt_date dd)) src)) -> v' = v.
+  Proof.
+    intros Hin H. apply (Permutation_in _ (Hord _)) in H. apply filter_In in H as [H _].
+    eapply src_unique; eauto.
+  Qed.
+
+  Lemma copy_days_preserve n v (Hin : In (n, v) src) : forall days dst,
+    b_get dst n = Some v -> b_get (fold_left (copy_day ord src) days dst) n = Some v.
+  Proof.
+    induction days as [|dd days IH]; intros dst Hg; cbn [fold_left]; [exact Hg|].
+    apply IH. unfold copy_day. apply fold_put_preserve; [exact Hg|]. intros v'. apply day_list_unique. exact Hin.
+  Qed.
+
+  Lemma copy_days_covers n v day (Hin : In (n, v) src) (Hpre : has_prefix n (fmt_date day) = true) :
+    forall days dst, In day days -> b_get (fold_left (copy_day ord src) days dst) n = Some v.
+  Proof.
+    induction days as [|dd days IH]; intros dst Hd; [destruct Hd|]. cbn [fold_left].
+    destruct Hd as [->|Hd]; [|apply IH; exact Hd].
+    apply copy_days_preserve; [exact Hin|]. unfold copy_day. apply fold_put_in.
+    - apply (Permutation_in _ (Permutation_sym (Hord _))). apply filter_In. split; [exact Hin | exact Hpre].
+    - intros v'. apply day_list_unique. exact Hin.
+  Qed.
+
+  (* the range is every day from start to end inclusive, whatever years it spans *)
+  Lemma range_days_in start end_ day : In day (range_days start end_) <-> (start <= day <= end_)%Z.
+  Proof.
+    unfold range_days. rewrite in_map_iff. split.
+    - intros [i [<- Hi]]. apply in_seq in Hi. lia.
+    - intro H. exists (Z.to_nat (day - start)). split; [lia|]. apply in_seq. lia.
+  Qed.
+
+  Theorem copy_covers_range dst start end_ day n v :
+    (start <= day <= end_)%Z -> In (n, v) src -> has_prefix n (fmt_date day) = true ->
+    b_get (copy_range ord src dst start end_) n = Some v.
+  Proof.
+    intros Hday Hin Hpre. unfold copy_range. apply (copy_days_covers n v day Hin Hpre).
+    apply range_days_in. exact Hday.
+  Qed.
+End CopyFacts.
+
 Section StoreFacts.
   Variable R : Type.
   Variable enc : R -> bytes.
   Variable dec : bytes -> option R.
   Variable proj : R -> report.
   Variable ord : bucket bytes -> bucket bytes.
+  Variable pos : list bool.
   Hypothesis enc_no_nl : forall r, ~ In nl (enc r).
   Hypothesis enc_nonempty : forall r, enc r <> [].
   Hypothesis dec_enc : forall r, dec (enc r) = Some r.
@@ -38,10 +157,10 @@ Section StoreFacts.
      shorter one): after /merge/ the day's object is one line per currently
      stored report and reads back as exactly those *)
   Theorem remerge_reads_current st date rs :
-    map dec (day_objects ord (ws_upload st) date) = map (@Some R) rs ->
-    let '(st', resp) := do_merge R enc dec ord st date in
+    map dec (day_objects ord pos st date) = map (@Some R) rs ->
+    let '(st', resp) := do_merge R enc dec ord pos st date in
     resp = RespMerge (length rs) true /\
-    ws_upload st' = ws_upload st /\ ws_chart st' = ws_chart st /\
+    ws_upload st' = ws_upload st /\ ws_stray st' = ws_stray st /\ ws_chart st' = ws_chart st /\
     (forall n, n <> date ++ json_ext -> b_get (ws_merged st') n = b_get (ws_merged st) n) /\
     exists file, b_get (ws_merged st') (date ++ json_ext) = Some file /\
                  unframe file = map enc rs /\ read_merged R dec file = Some rs.
@@ -49,10 +168,10 @@ Section StoreFacts.
     intro H. unfold do_merge.
     destruct (merge_one_line_per_object R enc dec enc_no_nl enc_nonempty dec_enc _ _ H) as [file [Hm [Hu _]]].
     pose proof (read_all R enc dec enc_no_nl enc_nonempty dec_enc _ _ H) as Hr.
-    rewrite Hm in *. cbn [fst] in Hr. cbn [ws_upload ws_chart ws_merged].
-    assert (Hlen : length (day_objects ord (ws_upload st) date) = length rs).
+    rewrite Hm in *. cbn [fst] in Hr. cbn [ws_upload ws_stray ws_chart ws_merged].
+    assert (Hlen : length (day_objects ord pos st date) = length rs).
     { rewrite <- (map_length dec), H, map_length. reflexivity. }
-    rewrite Hlen. split; [reflexivity|]. split; [reflexivity|]. split; [reflexivity|]. split.
+    rewrite Hlen. split; [reflexivity|]. split; [reflexivity|]. split; [reflexivity|]. split; [reflexivity|]. split.
     - intros n Hn. rewrite b_get_put. assert (E : beq n (date ++ json_ext) = false) by (apply beq_neq; exact Hn).
       rewrite E. reflexivity.
     - exists file. rewrite b_get_put, beq_refl. auto.
@@ -66,18 +185,18 @@ Section StoreFacts.
      replacing whatever chart object was there *)
   Theorem chart_after_remerge st day rs :
     iter_ok it -> cfg_ok lts ltg cfg ->
-    map dec (day_objects ord (ws_upload st) (fmt_date day)) = map (@Some R) rs ->
-    let st1 := fst (do_merge R enc dec ord st (fmt_date day)) in
+    map dec (day_objects ord pos st (fmt_date day)) = map (@Some R) rs ->
+    let st1 := fst (do_merge R enc dec ord pos st (fmt_date day)) in
     exists cd,
       do_chart R dec proj it lts ltg cfg st1 day day =
-        (mkWS (ws_upload st1) (ws_merged st1) (b_put (chart_object_name day day) cd (ws_chart st1)),
+        (mkWS (ws_upload st1) (ws_stray st1) (ws_merged st1) (b_put (chart_object_name day day) cd (ws_chart st1)),
          RespChart (ChartOk (chart_object_name day day) cd)) /\
       cd_num cd = length rs /\
       chart_ok lts ltg cfg (fmt_date day) (fmt_date day) (map proj rs) cd = true.
   Proof.
     intros Hit Hcfg H. pose proof (remerge_reads_current st (fmt_date day) rs H) as Hm.
-    destruct (do_merge R enc dec ord st (fmt_date day)) as [st1 resp]. cbn [fst].
-    destruct Hm as [_ [_ [_ [_ [file [Hg [_ Hr]]]]]]].
+    destruct (do_merge R enc dec ord pos st (fmt_date day)) as [st1 resp]. cbn [fst].
+    destruct Hm as [_ [_ [_ [_ [_ [file [Hg [_ Hr]]]]]]]].
     assert (Hread : read_state_day R dec proj st1 day = ROk (map proj rs)).
     { unfold read_state_day. rewrite Hg, Hr. reflexivity. }
     assert (Hn : Z.to_nat (day - day + 1) = 1%nat) by lia.
@@ -91,20 +210,20 @@ Section StoreFacts.
   Qed.
 End StoreFacts.
 
-(* a concrete history: three reports stored and merged, one withdrawn and one
-   re-stored shorter, merged again: the merged object is the two-line object,
+(* a concrete history: three reports stored and merged, one withdrawn, one
+   re-stored shorter, an unlistable directory met first by the walk, merged again: the merged object is the two-line object,
    nothing of the longer first one survives (unary codec of WorkerFacts) *)
 Definition ex_enc (n : nat) : bytes := repeat 65%N (S n).
 Definition ex_dec (b : bytes) : option nat := Some (pred (length b)).
 Definition ex_ops : list wop :=
   [ OpPut [100; 47; 97]%N (ex_enc 5); OpPut [100; 47; 98]%N (ex_enc 7); OpPut [100; 47; 99]%N (ex_enc 2);
     OpMerge [100%N];
-    OpDel [100; 47; 97]%N; OpPut [100; 47; 98]%N (ex_enc 1);
+    OpDel [100; 47; 97]%N; OpPut [100; 47; 98]%N (ex_enc 1); OpStray [33; 255]%N;
     OpMerge [100%N] ].
 
 Lemma example_remerge :
-  let '(st, resps) := run_ops nat ex_enc ex_dec (fun _ => mkReport [] 0%Z []) (fun b => b) iter_id bltb bltb
+  let '(st, resps) := run_ops nat ex_enc ex_dec (fun _ => mkReport [] 0%Z []) (fun b => b) [true] iter_id bltb bltb
                               (mkCfg [] [] [] []) ws_empty ex_ops in
-  resps = [RespNone; RespNone; RespNone; RespMerge 3 true; RespNone; RespNone; RespMerge 2 true] /\
+  resps = [RespNone; RespNone; RespNone; RespMerge 3 true; RespNone; RespNone; RespNone; RespMerge 2 true] /\
   b_get (ws_merged st) ([100%N] ++ json_ext) = Some (frame [ex_enc 1; ex_enc 2]).
 Proof. vm_compute. split; reflexivity. Qed.
